@@ -527,6 +527,12 @@ func VerifyConstGlobal(P *Program, DB *ContractDB, name string, prop string) *Fu
 							case *ssa.Alloc, *ssa.MakeMap, *ssa.MakeChan, *ssa.MakeSlice:
 								goal = "true"
 								stores++
+							case *ssa.Call:
+								// initialiser expression is a constructor call (status.New, Copy, ...):
+								// assumed to return a fresh object
+								goal = "true"
+								stores++
+								vc.Assumptions["initialiser of "+name+" returns a freshly allocated object"] = true
 							}
 						}
 						vc.oblige("writes", fmt.Sprintf("%s/%s/store[%s#%d]", prop, vc.qname, fname, n), "assigned only in init, with a fresh object", "true", goal, in.Pos(), true)
@@ -542,6 +548,9 @@ func VerifyConstGlobal(P *Program, DB *ContractDB, name string, prop string) *Fu
 		goal = "false"
 	}
 	vc.oblige("writes", fmt.Sprintf("%s/%s/assigned-once", prop, vc.qname), "exactly one initialising store", "true", goal, 0, true)
+	for a := range vc.Assumptions {
+		rep.Assumptions = append(rep.Assumptions, a)
+	}
 	rep.Obligations = vc.obls
 	return rep
 }
@@ -593,6 +602,160 @@ func VerifyZeroGlobal(P *Program, DB *ContractDB, name string, prop string) *Fun
 	}
 	vc.oblige("writes", fmt.Sprintf("%s/%s/declared-and-read", prop, vc.qname), "the variable exists and is read", "true", goal, 0, true)
 	// it must also be declared without an initialiser other than the zero composite
+	rep.Obligations = vc.obls
+	return rep
+}
+
+// VerifyEnum: every package-level variable of the given type, in every loaded
+// module package, is named in the spec function (e.g. the list of shared sentinels).
+func VerifyEnum(P *Program, DB *ContractDB, en *EnumDecl, prop string) *FuncReport {
+	vc := NewVC(P, DB, nil, nil, prop)
+	vc.qname = "enumerates " + en.Spec
+	rep := &FuncReport{Func: vc.qname}
+	sf := DB.Specs[en.Spec]
+	env := vc.newEnv(&FuncContract{Name: vc.qname, Pkg: en.Pkg}, vc.entry, vc.entry)
+	T := env.resolveType(en.Type)
+	if sf == nil || sf.Body == nil || T == nil {
+		rep.Errors = append(rep.Errors, fmt.Sprintf("enumerates %s %s: unknown spec function or type", en.Spec, en.Type))
+		return rep
+	}
+	body := sf.Body.String()
+	n := 0
+	for _, p := range P.Pkgs {
+		sc := p.Types.Scope()
+		for _, name := range sc.Names() {
+			v, ok := sc.Lookup(name).(*types.Var)
+			if !ok || !types.Identical(v.Type(), T) {
+				continue
+			}
+			n++
+			q := shortPkg(p.PkgPath) + "." + name
+			goal := "false"
+			if strings.Contains(body, q) || containsIdent(body, p.Types.Name()+"."+name) || (shortPkg(p.PkgPath) == sf.Pkg && containsIdent(body, name)) {
+				goal = "true"
+			}
+			o := vc.oblige("enum", fmt.Sprintf("%s/%s/listed[%s]", prop, vc.qname, q), fmt.Sprintf("package-level %s %s is covered by spec fn %s", en.Type, q, en.Spec), "true", goal, v.Pos(), true)
+			_ = o
+		}
+	}
+	if n == 0 {
+		rep.Errors = append(rep.Errors, "enumerates: no variable of type "+en.Type)
+	}
+	rep.Obligations = vc.obls
+	return rep
+}
+
+func containsIdent(s, id string) bool {
+	for i := 0; i+len(id) <= len(s); i++ {
+		if s[i:i+len(id)] == id {
+			before := i == 0 || !isIdentChar(s[i-1])
+			after := i+len(id) == len(s) || !isIdentChar(s[i+len(id)])
+			if before && after {
+				return true
+			}
+		}
+	}
+	return false
+}
+
+func isIdentChar(c byte) bool {
+	return c == '_' || c >= '0' && c <= '9' || c >= 'a' && c <= 'z' || c >= 'A' && c <= 'Z'
+}
+
+// VerifyCallSites: every call of one of the listed callees anywhere in the
+// module sits in a function that is under (verified) contract for the property,
+// so its requires-clauses are obligations there.
+func VerifyCallSites(P *Program, DB *ContractDB, cs *CallSitesDecl, prop string) *FuncReport {
+	vc := NewVC(P, DB, nil, nil, prop)
+	var names []string
+	for c := range cs.Callees {
+		names = append(names, c)
+	}
+	sort.Strings(names)
+	vc.qname = "callsites " + strings.Join(names, ",")
+	if len(vc.qname) > 60 {
+		vc.qname = vc.qname[:60] + "…"
+	}
+	rep := &FuncReport{Func: vc.qname}
+	n := 0
+	for _, fname := range sortedKeys(P.Funcs) {
+		fn := P.Funcs[fname]
+		for _, b := range fn.Blocks {
+			for _, in := range b.Instrs {
+				ci, ok := in.(ssa.CallInstruction)
+				if !ok {
+					continue
+				}
+				callee := ci.Common().StaticCallee()
+				if callee == nil || !cs.Callees[calleeName(callee)] {
+					continue
+				}
+				n++
+				// closures are verified as part of their outermost named function when inlined;
+				// require the function itself (or its parent) to be under contract
+				owner := fn
+				ok2 := false
+				for owner != nil {
+					if k := DB.Funcs[QualName(owner)]; k != nil && k.Kind == "func" && !k.Trusted && k.hasProp(prop) {
+						ok2 = true
+						break
+					}
+					owner = owner.Parent()
+				}
+				goal := "false"
+				if ok2 {
+					goal = "true"
+				}
+				vc.oblige("callsites", fmt.Sprintf("%s/callsite[%s in %s#%d]", prop, calleeName(callee), fname, n), "call site lies in a function under contract for "+prop, "true", goal, in.Pos(), true)
+			}
+		}
+	}
+	if n == 0 {
+		rep.Errors = append(rep.Errors, "callsites: no call site found for "+strings.Join(names, ","))
+	}
+	rep.Obligations = vc.obls
+	return rep
+}
+
+// VerifyFuncAlias: the function-typed variable is assigned exactly once, in init,
+// with the named function.
+func VerifyFuncAlias(P *Program, DB *ContractDB, name, full, prop string) *FuncReport {
+	vc := NewVC(P, DB, nil, nil, prop)
+	vc.qname = "funcalias " + name
+	rep := &FuncReport{Func: vc.qname}
+	n, stores := 0, 0
+	for _, fname := range sortedKeys(P.Funcs) {
+		fn := P.Funcs[fname]
+		for _, b := range fn.Blocks {
+			for _, in := range b.Instrs {
+				for _, op := range in.Operands(nil) {
+					g, ok := (*op).(*ssa.Global)
+					if !ok || shortPkg(g.Pkg.Pkg.Path())+"."+g.Name() != name {
+						continue
+					}
+					n++
+					switch u := in.(type) {
+					case *ssa.UnOp, *ssa.DebugRef:
+					case *ssa.Store:
+						goal := "false"
+						if f, ok := ptrSource(u.Val).(*ssa.Function); ok && u.Addr == g && fn.Name() == "init" && fullName(f) == full {
+							goal = "true"
+							stores++
+						}
+						vc.oblige("writes", fmt.Sprintf("%s/%s/store[%s#%d]", prop, vc.qname, fname, n), "assigned only in init, with "+full, "true", goal, in.Pos(), true)
+					default:
+						vc.oblige("writes", fmt.Sprintf("%s/%s/escapes[%s#%d]", prop, vc.qname, fname, n), fmt.Sprintf("address used by %T", in), "true", "false", in.Pos(), true)
+					}
+				}
+			}
+		}
+	}
+	goal := "true"
+	if stores != 1 {
+		goal = "false"
+	}
+	vc.oblige("writes", fmt.Sprintf("%s/%s/assigned-once", prop, vc.qname), "exactly one initialising store", "true", goal, 0, true)
+	rep.Assumptions = append(rep.Assumptions, "exported variable "+name+" is not reassigned by code outside the module")
 	rep.Obligations = vc.obls
 	return rep
 }
